@@ -100,3 +100,83 @@ def make_interp(prog, extra: Optional[dict] = None, **kw) -> Interp:
     it = Interp(prog, externals=ext, **kw)
     holder[0] = it
     return it
+
+
+# ------------------------------------------------------------------------------------------------ byte sources
+class Marker:
+    """Stands for an external class used only in isinstance tests (io.BufferedIOBase, socket.socket, ...)."""
+    def __init__(self, name):
+        self.name = name
+
+    def __repr__(self):
+        return f"<{self.name}>"
+
+
+SRC_MARKERS = {n: Marker(n) for n in ("io.BufferedIOBase", "io.TextIOWrapper", "socket.socket", "io.RawIOBase",
+                                      "io.BufferedReader", "io.BytesIO", "io.IOBase")}
+_FILE_KINDS = {"io.BufferedIOBase", "io.BufferedReader", "io.IOBase"}
+
+
+def file_source(data: bytes) -> Obj:
+    st = {"pos": 0, "reads": 0}
+
+    def read(n=-1):
+        st["reads"] += 1
+        if n is None or n < 0:
+            out = data[st["pos"]:]
+        else:
+            out = data[st["pos"]:st["pos"] + n]
+        st["pos"] += len(out)
+        return out
+
+    def seek(off, whence=0):
+        if whence == 0:
+            st["pos"] = off
+        elif whence == 1:
+            st["pos"] += off
+        else:
+            st["pos"] = len(data) + off
+        return st["pos"]
+
+    return Obj(None, __kind__="file", read=read, seek=seek, tell=lambda: st["pos"], __state__=st)
+
+
+def socket_source(fragments, stays_open: bool = False) -> Obj:
+    """recv(n) hands out the next fragment (split if longer than n); b'' once the peer has closed - or, for a
+    socket that stays open, a receive timeout (what a blocking recv on a silent live connection ends in)."""
+    frs = [bytes(f) for f in fragments if len(f)]
+    st = {"i": 0, "calls": 0}
+
+    def recv(n):
+        st["calls"] += 1
+        if st["i"] >= len(frs):
+            if stays_open:
+                from .interp import ExcVal, Raised
+                raise Raised(ExcVal("timeout", ("timed out",)))
+            return b""
+        f = frs[st["i"]]
+        if len(f) <= n:
+            st["i"] += 1
+            return f
+        frs[st["i"]] = f[n:]
+        return f[:n]
+
+    return Obj(None, __kind__="socket", recv=recv, __state__=st)
+
+
+def source_externals() -> dict:
+    def isinst(v, marker):
+        if not isinstance(marker, Marker):
+            return False
+        kind = v.attrs.get("__kind__") if isinstance(v, Obj) else None
+        if marker.name in _FILE_KINDS:
+            return kind == "file"
+        if marker.name == "socket.socket":
+            return kind == "socket"
+        if marker.name == "io.TextIOWrapper":
+            return kind == "text"
+        return False
+    ext = {k: v for k, v in SRC_MARKERS.items()}
+    ext.update({"isinstance": isinst, "io.SEEK_END": 2, "io.SEEK_SET": 0, "io.SEEK_CUR": 1,
+                "time.time_ns": lambda: 0, "time.time": lambda: 0.0})
+    return ext
